@@ -345,6 +345,13 @@ def WF (b : Bytes) : Prop :=
 
 instance (b : Bytes) : Decidable (WF b) := by unfold WF; exact inferInstance
 
+/-- a self-consistent extracted track: `RIFF size WAVE`, an 18-byte `fmt ` chunk carrying the 16 format bytes and
+    `cbSize = 0`, a `data` chunk whose length is the payload's, the payload, and nothing else; `size + 8` is the file length -/
+def SelfConsistentWav (w fmt16 payload : Bytes) : Prop :=
+  w.take 4 = Wave.tagRIFF ∧ decU32 (w.drop 4) + 8 = w.length ∧ (w.drop 8).take 4 = Wave.tagWAVE ∧
+  (w.drop 12).take 4 = Wave.tagFmt ∧ decU32 (w.drop 16) = 18 ∧ (w.drop 20).take 16 = fmt16 ∧ decU16 (w.drop 36) = 0 ∧
+  (w.drop 38).take 4 = Wave.tagData ∧ decU32 (w.drop 42) = payload.length ∧ w.drop 46 = payload
+
 /-- reference encoder: a format and `(name, data)` members in archive order -/
 def encode (fmt : Bytes) (members : List (Bytes × Bytes)) : Bytes :=
   let n := members.length
